@@ -27,6 +27,14 @@ inductive R (α : Type)
   | spin
   deriving DecidableEq, Repr
 
+def R.isOob {α : Type} : R α → Bool
+  | .oob => true
+  | _ => false
+
+def R.isOk {α : Type} : R α → Bool
+  | .ok _ => true
+  | _ => false
+
 /-- `2^64` -/
 abbrev U64 : Nat := 18446744073709551616
 
